@@ -23,6 +23,7 @@ import (
 	"github.com/thushan/olla/internal/adapter/health"
 	"github.com/thushan/olla/internal/adapter/proxy/core"
 	"github.com/thushan/olla/internal/adapter/registry/profile"
+	"github.com/thushan/olla/internal/app/services"
 	"github.com/thushan/olla/internal/config"
 	"github.com/thushan/olla/internal/core/domain"
 	"github.com/thushan/olla/internal/core/ports"
@@ -155,7 +156,7 @@ func newWorld(interval, timeout time.Duration) (*world, error) {
 		}
 		return nil
 	}))
-	w.retry = core.NewRetryHandler(&discAdapter{w.repo}, lg)
+	w.retry = core.NewRetryHandler(services.VerifRepositoryAdapter(w.repo), lg) // the adapter production wires in
 	return w, nil
 }
 
